@@ -604,24 +604,37 @@ fn variant_board(start: u8, variant: u8) -> Board {
 }
 
 pub fn chain_eq<S: Src, const START: u8, const KG: u8>(s: &mut S) {
+    // chain 1: stated start + one symbolic push of group KG; chain 2: a variant of the start (same / other
+    // clocks / no castling rights / another position) + optionally one CONCRETE move of the same group
     let (mut c1, mut m1) = build(START, 0);
     let v = s.below(4);
     let b2 = variant_board(START, v);
-    // (build() resets the shared repetition store; it is not inspected in this harness)
     let mut c2: Chain = BaseMoveChain::new(b2.clone());
     let mut m2 = Model::new(b2);
     let side = pos_of(m1.cur().raw()).side;
     let a = any_m_rt(s, side, KG);
     vassume!(wf_ref(a));
-    let b = any_m_rt(s, side, KG);
-    vassume!(wf_ref(b));
     if let Ok(nb) = m1.cur().make_move(mv_of(a)) {
         c1.push(mv_of(a)).unwrap();
         m1.push(mv_of(a), nb);
     }
-    if let Ok(nb) = m2.cur().make_move(mv_of(b)) {
-        c2.push(mv_of(b)).unwrap();
-        m2.push(mv_of(b), nb);
+    if s.bool() {
+        // a stated concrete move of that group (if it is legal in chain 2's position)
+        let (f, t, p) = match (START, KG) {
+            (0, KG_PAWN) => ("a2", "a3", 0),
+            (0, KG_KING) => ("e1", "f1", 0),
+            (0, KG_CASTLING) => ("e1", "g1", 0),
+            (1, KG_PSPECIAL) => ("b2", "b1", 4),
+            (4, KG_KING) => ("e1", "e2", 0),
+            _ => ("g1", "f3", 0),
+        };
+        let u = uci::Move::Move { src: Coord::from_index(sq(f) as usize), dst: Coord::from_index(sq(t) as usize), promote: crate::c10::promote_of(p) };
+        if let Ok(mv) = u.into_move(m2.cur()) {
+            if let Ok(nb) = m2.cur().make_move(mv) {
+                c2.push(mv).unwrap();
+                m2.push_concrete(mv, nb);
+            }
+        }
     }
     if s.bool() {
         let o = any_outcome(s);
@@ -643,7 +656,6 @@ pub fn chain_eq<S: Src, const START: u8, const KG: u8>(s: &mut S) {
     core::mem::forget(c2);
 }
 
-/// C17: walker over a stated chain extended by one symbolic accepted move; up to NOPS symbolic steps
 /// pair (board, move) returned by the walker equals the model's pair at (symbolic) cursor `cur`
 fn pair_matches(md: &Model, cur: usize, b: &Board, mv: Move) -> bool {
     let mut ok = false;
